@@ -318,7 +318,82 @@ def check_reload(col, rule="C09.R5"):
     col.add(rule, f"{q}#iteration-in-range", rng, sx.loc(sx.fn), "the iteration is checked against the log length", "")
 
 
+def _outer_for(fn):
+    """the loop over the requested number of steps: the outermost `for` of step()"""
+    for st in fn.body:
+        if isinstance(st, ast.For):
+            return st
+    return None
+
+
+def _no_exit_on_a_perturbed_point(col, rule="C09.R10"):
+    """get_jacobian evaluates the merit function at perturbed points, so right after it last_point_within_tol describes x + step of
+    some knob: JacobianSolver.step may return normally only after evaluating again (the line search does, before it can leave)"""
+    sx = octx(col.repo, "JacobianSolver", "step")
+    cfg = sx.cfg
+    jac = [ev for ev, m in sx.calls_some(("call", ("attr", S.V("f"), "get_jacobian"), S.V("a"), S.V("k")))]
+    evals = [ev.nid for ev, m in sx.calls_some(("call", ("attr", S.SELF, "eval"), S.V("a"), S.V("k")))]
+    if not jac or not evals:
+        raise AnalysisError("JacobianSolver.step: get_jacobian / self.eval calls not found -- cannot decide")
+    # the line search: a loop that evaluates in its body and whose only exit before the first evaluation asks for `alpha > ...` with
+    # alpha started at -1
+    searches = []
+    by_ast = {id(n.ast): n for n in cfg.nodes.values() if n.ast is not None and n.kind in ("stmt", "test", "for", "with")}
+
+    def has_eval(stmts):
+        return any(isinstance(c, ast.Call) and isinstance(c.func, ast.Attribute) and c.func.attr == "eval" and isinstance(c.func.value, ast.Name)
+                   and c.func.value.id == "self" for b in stmts for c in ast.walk(b))
+    for w in ast.walk(sx.fn):
+        # the line search: a loop that evaluates in its body (it tries at least the full step: the count of halvings starts below
+        # the bound that lets it leave)
+        if isinstance(w, ast.While) and w.body and has_eval(w.body):
+            first = w.body[0]
+            n = by_ast.get(id(w.test)) if not (isinstance(w.test, ast.Constant) and w.test.value is True) else \
+                by_ast.get(id(first.test if isinstance(first, (ast.If, ast.While)) else first))
+            if n is not None:
+                searches.append(n.id)
+        elif isinstance(w, ast.For) and has_eval(w.body) and w is not _outer_for(sx.fn):
+            n = by_ast.get(id(w))
+            if n is not None:
+                searches.append(n.id)
+    for ev in jac:
+        ok = not cfg.path_avoiding(ev.nid, cfg.EXIT, evals + searches, normal_only=True)
+        if not ok and not searches:
+            raise AnalysisError("JacobianSolver.step: the line search after the Jacobian is not recognised -- cannot decide")
+        col.add(rule, "JacobianSolver.step#evaluates-again-after-the-jacobian", ok, sx.loc(ev),
+                "no normal exit between taking the Jacobian (perturbed evaluations) and the next evaluation of a point the step keeps",
+                f"evaluations: {len(evals)}, line-search loops recognised: {len(searches)}")
+
+
+def _target_values_stay_as_given(col, rule="C09.R11"):
+    """a target value given as a reference is followed at every evaluation (MeritFunctionForMatch.__call__ reads `_value` then): the
+    constructor replaces a target's value only for the 'preserve' placeholder, never by a snapshot of what a reference holds"""
+    sx = octx(col.repo, "Optimize", "__init__")
+    n = 0
+    for ev in sx.of_kind("store"):
+        for t in S.alts(ev.target):
+            if t[:1] == ("attr",) and t[2] == "value" and t[1] != S.SELF:
+                n += 1
+                conds = sx.conds(ev.nid)
+                pres = any(c[:2] == ("cmp", "==") and ("const", repr("preserve")) in (c[2], c[3]) and ("attr", t[1], "value") in (c[2], c[3]) for c in conds)
+                col.add(rule, "Optimize.__init__#target-value-replaced-only-for-preserve", pres, sx.loc(ev),
+                        "the constructor overwrites a target's value only where it is the 'preserve' placeholder",
+                        f"{S.show(t)} = {S.show(ev.value)[:50] if ev.value else '?'} under {[S.show(c)[:50] for c in conds]}")
+    if n == 0:
+        col.ok(rule, "Optimize.__init__#target-value-replaced-only-for-preserve", sx.loc(sx.fn), "no target value is overwritten", "")
+    mx = octx(col.repo, "MeritFunctionForMatch", "__call__")
+    live = [ev for ev in mx.events if ev.kind in ("call", "store", "return") and any(
+        s_[:1] == ("attr",) and s_[2] == "_value" and s_[1][:1] == ("attr",) and s_[1][2] == "value"
+        for tm in ([ev.term] if ev.kind == "call" else [ev.value] if ev.value is not None else []) for s_ in S.subterms(tm))]
+    col.add(rule, "MeritFunctionForMatch.__call__#reference-target-values-read-now", bool(live), mx.loc(live[0]) if live else mx.loc(mx.fn),
+            "a reference-valued target is read (`.value._value`) at each evaluation", "")
+
+
 def check(col: Collector):
+    with col.rule():
+        _target_values_stay_as_given(col)
+    with col.rule():
+        _no_exit_on_a_perturbed_point(col)
     with col.rule():
         _solve(col)
     with col.rule():
